@@ -45,9 +45,11 @@ var Profiles = map[string]func() Profile{
 		p.Name = "query"
 		p.W = wts(int(KNewEntity), 14, int(KNewBatch), 5, int(KAdd), 12, int(KRemove), 10, int(KExchange), 8, int(KWrite), 3,
 			int(KSetRel), 8, int(KCopy), 3, int(KRemoveEntity), 8, int(KAddBatch), 3, int(KRemoveBatch), 3, int(KExchangeBatch), 2,
-			int(KSetRelBatch), 3, int(KRemoveEntities), 3, int(KReset), 1, int(KShrink), 2, int(KOpenQuery), 4, int(KStepQuery), 6, int(KCloseQuery), 2)
+			int(KSetRelBatch), 3, int(KRemoveEntities), 3, int(KReset), 1, int(KShrink), 3, int(KOpenQuery), 4, int(KStepQuery), 6, int(KCloseQuery), 2,
+			int(KRegFilter), 4, int(KUnregFilter), 2)
 		p.RelPct = 60
 		p.QuerySlots = 6
+		p.FilterSlots = 5
 		p.HotComps = 7
 		return p
 	},
